@@ -1,5 +1,5 @@
 (* C09 — property theorems for the code as it is after fixes 1f61a03, 4ce6577 and 3c40407 (statements only; proofs in Proofs_*.v). *)
-From Sdns Require Import Common.Base Gen.C09 C09.Model C09.Proofs_Maps C09.Proofs_Rev C09.Proofs_Step C09.Proofs_Refute C09.Proofs_Prov C09.Proofs_Thm C09.Proofs_Hist C09.Proofs_Live C09.Proofs_Wf C09.Proofs_Inv C09.Proofs_KeyTag C09.Proofs_Gen C09.Proofs_Root C09.ModelFs C09.Proofs_Fs C09.Proofs_Stay.
+From Sdns Require Import Common.Base Common.GoList Gen.C09 C09.Model C09.Proofs_Maps C09.Proofs_Rev C09.Proofs_Step C09.Proofs_Refute C09.Proofs_Prov C09.Proofs_Thm C09.Proofs_Hist C09.Proofs_Live C09.Proofs_Wf C09.Proofs_Inv C09.Proofs_KeyTag C09.Proofs_Gen C09.Proofs_Root C09.ModelFs C09.Proofs_Fs C09.Proofs_Stay C09.Proofs_Maps2.
 Open Scope N_scope.
 
 (* A DNSKEY response carrying no valid signature made with the key material of a
@@ -416,3 +416,31 @@ Theorem first_refresh_anchors :
     ((exists s5, In (WState s5) (r_writes (run_of tag s now fe fl))) -> good tag K s').
 Proof. exact first_refresh_anchors_lemma. Qed.
 Print Assumptions first_refresh_anchors.
+
+(* ------------------------------------------------ wave 9: translator ties over Go maps *)
+
+(* WHICH anchors are trusted.  The loop of Resolver.AutoTA that builds the candidate trust set — authenticated against,
+   published before the fetch, and (with the tombstone skip) the shape of finalRootKeys — TRANSLATED from the function
+   body (srcgen loopfunc over map[uint16]*TrustAnchor as an association list, range in list order, dns.RR as a sum
+   type): it hands back the table unchanged and, read through any abstraction of DNSKEY records, exactly the model's
+   trusted_keys — the keys of the entries whose State is Valid or Missing, nothing else (not AddPend, not Revoked, not
+   Removed).  In the list order of the association list; the model and the code use the result as a set. *)
+Theorem candidate_loop_is_trusted_keys :
+  forall (enc : N * N * list N -> N) (fs_of : Z -> Z) (ksk : list (N * T_TrustAnchor)),
+    exists cand, go_Resolver_AutoTA_loop6_run ksk [] = (GoNext, (ksk, cand)) /\
+                 map (abs_rr enc) cand = trusted_keys (abs_kmap enc fs_of ksk).
+Proof. exact gen_candidate_is_trusted_keys. Qed.
+Print Assumptions candidate_loop_is_trusted_keys.
+
+(* The dual durable record: the loop that drops StateRevoked / StateRemoved markers from the anchor table (run only
+   after writeTombstones succeeded), translated the same way.  On a table with unique tags (a Go map) whose States are
+   among the six the code has, it leaves exactly the model's filter (negb is_marker) of the abstracted table (Model.v
+   tail: ksk5) — every marker goes, nothing else does, in whatever order the map is walked (each step deletes at most
+   the entry it visits). *)
+Theorem marker_cleanup_loop_is_model :
+  forall (enc : N * N * list N -> N) (fs_of : Z -> Z) (ksk : list (N * T_TrustAnchor)),
+    NoDup (map fst ksk) -> Forall (fun p => state_in_range (snd p)) ksk ->
+    exists ksk', go_Resolver_AutoTA_loop13_run ksk = (GoNext, ksk') /\
+                 abs_kmap enc fs_of ksk' = filter (fun e => negb (is_marker (snd e))) (abs_kmap enc fs_of ksk).
+Proof. exact gen_marker_cleanup_is_model. Qed.
+Print Assumptions marker_cleanup_loop_is_model.
